@@ -390,7 +390,8 @@ func (e *c10Env) runAPI(c *c10Case) map[string]interface{} {
 		return 0
 	})
 	top := L.GetTop()
-	err := L.CallByParam(lua.P{Fn: body, NRet: 0, Protect: true})
+	// the host function owns one argument: a method that looks below its own operands would see it
+	err := L.CallByParam(lua.P{Fn: body, NRet: 0, Protect: true}, lua.LString("c10-caller-value"))
 	out := map[string]interface{}{"err": err != nil, "calls": e.log, "res": res}
 	if err != nil {
 		out["res"] = []interface{}{}
@@ -456,7 +457,9 @@ func (e *c10Env) runLua(c *c10Case) map[string]interface{} {
 	case "LessThan":
 		src, args = "return function(a,b) return a<b end", a
 	case "Concat":
-		if len(a) == 2 {
+		if len(a) == 0 { // the empty concatenation (lua_concat with n = 0): the empty string
+			src = "return function() return '' end"
+		} else if len(a) == 2 {
 			src = "return function(a,b) return a..b end"
 		} else {
 			src = "return function(a,b,c) return a..b..c end"
